@@ -25,7 +25,14 @@ monitor (on the implementation, through harness/src/bin/recipe.rs; the property 
                     suppress the output and every analysis diagnostic collected before it.
 correspondence      L-ev projected on diagnostics (severity, label spans, order) between Model/Parser.v
                     and the PullParser, full and metadata-only streams, on every spliced and every
-                    well-formed text under its extension set (pc.run_both)."""
+                    well-formed text under its extension set (pc.run_both).
+                    L-diag: the Analysis-stage diagnostics of CooklangParser::parse (severity, every label
+                    span, in report order; harness/src/bin/adiag.rs) against the parser model followed by
+                    the decorated collector of Model/AnalysisDiag.v (Extract/AdiagX.v, runner/adiag_main.ml)
+                    on every case of (a), (b), (c) under its extension set and converter; the answers of
+                    unicase, serde_yaml, the converter and char::is_alphanumeric are shipped with the case.
+                    Cases whose report holds a parser error are compared on that fact only (the analysis
+                    diagnostics are discarded then)."""
 import json
 import os
 import random
@@ -37,7 +44,7 @@ from checks import parser_common as pc
 from checks import c07_catalog as cat
 
 PID = "C07"
-LAYER = "L-ev (diagnostics) + L-rec report monitor"
+LAYER = "L-ev (diagnostics) + L-diag (analysis diagnostics) + L-rec report monitor"
 WANTS_STEP = ["first", "middle", "last", "after-section"]
 WANTS_LINE = ["top", "between-blocks", "after-section", "splits-a-step", "block-end", "end"]
 # extension subsets that only add syntax a canonical recipe does not use
@@ -279,6 +286,52 @@ def run_recipe(bindir, triples):
     return {k: json.loads(o) for k, o in zip(uniq, outl)}
 
 
+ADIAG_DEPS = pc.MODEL_DEPS + ["Model/Events.v", "Model/Analysis.v", "Model/Diag.v", "Model/EventBridge.v",
+                              "Model/AnalysisLabels.v", "Model/AnalysisDiag.v"]
+
+
+def build_adiag():
+    return common.build_runner("adiag", ADIAG_DEPS, commons=("common_n.ml",))
+
+
+def run_ldiag(bindir, runner, triples):
+    """L-diag on the distinct (text, ext, conv): returns (counts, disagreements)"""
+    uniq = list(dict.fromkeys(triples))
+    uniq.sort(key=lambda t: (t[1], t[2]))
+    outl = common.run_lines(os.path.join(bindir, "adiag"), ["%s %d %s" % (hx(t), e, c) for t, e, c in uniq], tag="c07d")
+    cnt = {"cases": len(uniq), "compared": 0, "with_analysis_diagnostics": 0, "parse_error_cases": 0,
+           "impl_panics": 0, "labels_compared": 0}
+    mcases, keep = [], []
+    for k, o in zip(uniq, outl):
+        if o == "panic":
+            cnt["impl_panics"] += 1       # C03's subject
+            continue
+        d, p, orc = o.split(" ;; ")
+        mcases.append("%s %d %s" % (hx(k[0]), k[1], orc[3:]))
+        keep.append((k, d, p))
+    mout = common.run_lines(runner, mcases, tag="c07dm")
+    dis = []
+    for (k, d, p), m in zip(keep, mout):
+        rp = {"input": k[0], "input_hex": hx(k[0]), "ext": k[1], "conv": k[2], "part": "L-diag (analysis diagnostics)",
+              "impl": (d + " ;; " + p)[:1200], "model": m[:1200], "ldiag": True}
+        if m == "panic":
+            dis.append((k[0], rp))
+            continue
+        md, mp = m.split(" ;; ")
+        if mp != p:
+            dis.append((k[0], rp))
+        elif p == "P 1":
+            cnt["parse_error_cases"] += 1
+        elif md != d:
+            dis.append((k[0], rp))
+        else:
+            cnt["compared"] += 1
+            if d != "D -":
+                cnt["with_analysis_diagnostics"] += 1
+                cnt["labels_compared"] += d.count("-")
+    return cnt, dis
+
+
 def replay_of(c, extra=None):
     d = {"input": c["text"], "input_hex": hx(c["text"]), "ext": c["ext"], "conv": c["conv"], "case_kind": c["kind"]}
     for k in ("entry", "analysis_entry", "a", "b", "aa", "ab", "sev", "tags", "old_style", "profile", "pair"):
@@ -295,7 +348,8 @@ def run(rep, tier, seed):
     rng = random.Random(seed)
     quick = tier == "quick"
     paths = pc.prepare(need_release=False)
-    bindir = common.build_harness(["recipe"])
+    bindir = common.build_harness(["recipe", "adiag"])
+    adiag_runner = build_adiag()
     audit = common.audit_property_file(PID)
 
     corpus = corpus_cases()
@@ -412,14 +466,19 @@ def run(rep, tier, seed):
                 if v:
                     hits.append((s, v, replay_of(c, {"diags": j["diags"], "parser_diags": ia})))
 
+    # ---- correspondence L-diag: the analysis diagnostics of the implementation against Model/AnalysisDiag.v
+    ldiag, ldis = run_ldiag(bindir, adiag_runner, [(c["text"], c["ext"], c["conv"]) for c in allc])
+    dis += ldis
+
     common.decide(rep, PID, LAYER, audit, hits, dis, tier,
-                  "correspondence Model/Parser.v <-> src/parser on diagnostics (severity, labels, order)")
+                  "correspondence Model/Parser.v <-> src/parser on diagnostics (severity, labels, order) and "
+                  "Model/AnalysisDiag.v <-> src/analysis/event_consumer.rs on the analysis diagnostics")
     common.proof_coverage(rep, PID, audit, tier,
                           "the diagnostics of the pull parser (Model/Parser.v: code, severity, label spans - message "
                           "wording is not modelled) and the way parse_events/PassResult combine the stages "
-                          "(Model/Diag.v); the analysis pass is modelled with one bit 'an error was reported' "
-                          "(Model/Analysis.v), so the labels of analysis diagnostics are monitored on the "
-                          "implementation only")
+                          "(Model/Diag.v); the analysis pass (Model/Analysis.v, L-rec of C06) decorated with its 24 "
+                          "diagnostics, their severity and ordered labels (Model/AnalysisDiag.v, L-diag here); "
+                          "custom validators of ParseOptions are not modelled (default options)")
     missing = sorted(k for k in cat.CLASSES if not per_class.get(k))
     distinct = set(c["text"] for c in catalog + doubles) | set(c["text"] for c in sound if any(ch in c["text"] for ch in "@#~"))
     samples = []
@@ -441,7 +500,7 @@ def run(rep, tier, seed):
                         "conv": c["conv"], "input": c["text"],
                         "diags": [[d[0], d[1], d[2]] for d in j.get("diags", [])]})
     rep.coverage.update({
-        "evaluations": len(res) + lev_cases, "distinct_nontrivial": len(distinct),
+        "evaluations": len(res) + lev_cases + ldiag["cases"], "distinct_nontrivial": len(distinct),
         "rule": "well-formed recipes of gen/grec.py (canonical under no extensions / extension subsets that keep "
                 "them well-formed, extended under all extensions and COMPAT, bundled converter) must be "
                 "diagnostic-free up to the `>>` notice; every construct of checks/c07_catalog.py (%d entries in %d "
@@ -484,6 +543,7 @@ def run(rep, tier, seed):
         "validity_equation_cases": len(allc) - panics, "report_vs_parser_diag_cases": glue_cases,
         "panicking_cases_skipped": panics,
         "correspondence_cases": lev_cases, "correspondence_disagreements": len(dis),
+        "analysis_diagnostics_correspondence": ldiag,
         "correspondence_cases_with_model_diagnostics": model_diag_cases,
         "monitor_violations": len(hits), "exhaustive": False,
     })
@@ -499,7 +559,8 @@ def run(rep, tier, seed):
 
 def setup():
     pc.prepare(need_release=False)
-    common.build_harness(["recipe"])
+    common.build_harness(["recipe", "adiag"])
+    build_adiag()
 
 
 def replay(rp):
@@ -507,8 +568,13 @@ def replay(rp):
     if "input_hex" not in r:
         print("nothing to replay: " + rp.get("what", ""))
         return 1
-    bindir = common.build_harness(["recipe", "events"])
+    bindir = common.build_harness(["recipe", "events", "adiag"])
     line = "%s %s %s\n" % (r["input_hex"], r.get("ext", 0), r.get("conv", "e"))
+    if r.get("ldiag"):
+        cnt, ldis = run_ldiag(bindir, build_adiag(), [(common.unhx(r["input_hex"]), int(r.get("ext", 0)), r.get("conv", "e"))])
+        for _, rp in ldis:
+            print(json.dumps({"impl": rp["impl"], "model": rp["model"]}, ensure_ascii=False))
+        return 1 if ldis else 0
     p = subprocess.run([os.path.join(bindir, "recipe"), "-"], input=line, text=True, stdout=subprocess.PIPE)
     j = json.loads(p.stdout)
     text = common.unhx(r["input_hex"])
